@@ -109,20 +109,20 @@ struct Ref { std::vector<CL> v; std::vector<LD> acc; std::vector<long> k;
 
 // got vs ref.  exact: equality.  otherwise forward bound cf (kmul k + 4) eps acc.
 static bool cmp(Case &c, const std::string &key, const std::string &what, const std::vector<CL> &got, const Ref &ref, bool exact, double eps, double cf, double kmul = 1) {
-    bool ok = got.size() == ref.v.size(); size_t bad = 0; double worst = 0; LD gv = 0, rv = 0, bd = 0;
+    bool ok = got.size() == ref.v.size(); size_t bad = 0; double worst = 0; LD gv = 0, rv = 0, bd = 0, gi = 0, ri = 0;
     for (size_t i = 0; ok && i < got.size(); ++i) {
         bool fin = std::isfinite((double)got[i].real()) && std::isfinite((double)got[i].imag());
-        if (exact) { if (!fin || !(got[i].real() == ref.v[i].real()) || !(got[i].imag() == ref.v[i].imag())) { ok = false; bad = i; gv = got[i].real(); rv = ref.v[i].real(); } }
+        if (exact) { if (!fin || !(got[i].real() == ref.v[i].real()) || !(got[i].imag() == ref.v[i].imag())) { ok = false; bad = i; gv = got[i].real(); rv = ref.v[i].real(); gi = got[i].imag(); ri = ref.v[i].imag(); } }
         else {
             LD d = std::abs(got[i] - ref.v[i]), bound = (LD)cf * (LD)(kmul * ref.k[i] + 4) * (LD)eps * ref.acc[i];
-            if (!fin || !(d <= bound)) { ok = false; bad = i; gv = got[i].real(); rv = ref.v[i].real(); bd = bound; }
+            if (!fin || !(d <= bound)) { ok = false; bad = i; gv = got[i].real(); rv = ref.v[i].real(); gi = got[i].imag(); ri = ref.v[i].imag(); bd = bound; }
             if (ref.acc[i] > 0) worst = std::max(worst, (double)(d / ((LD)eps * ref.acc[i])));
         }
     }
     if (!exact) vf::obs_max("max_err_over_eps_abs_sum", worst);
     vf::obs_sum("calls_compared");
     return c.check(ok, key, what + (exact ? " (integer-valued operands: exact equality demanded)" : " (outside the forward rounding bound)"),
-                   J().n("component", bad).n("got_re", gv).n("ref_re", rv).n("bound", bd).n("size", got.size()).n("ref_size", ref.v.size()));
+                   J().n("component", bad).n("got_re", gv).n("ref_re", rv).n("got_im", gi).n("ref_im", ri).n("bound", bd).n("size", got.size()).n("ref_size", ref.v.size()));
 }
 
 // Run an operation that writes `out`; when the output coefficient is zero repeat it with hostile
@@ -308,7 +308,8 @@ void inner_body(Case &c, const std::string &tag, Rng &r, size_t n, bool exact) {
     for (size_t i = 0; i < n; ++i) for (int p = 0; p < b; ++p) { CL vy = cs * fy[i * b + p], vx = cs * fx[i * b + p]; setel(sy[i], p, 0, vy.real(), vy.imag()); setel(sx[i], p, 0, vx.real(), vx.imag()); }
     auto SY = mkvec<Vec>(sy); auto SX = mkvec<Vec>(sx);
     E ip2 = backend::inner_product(*X, *SY), ip1 = backend::inner_product(*SX, *Y);
-    Ref r2(1), r1(1); r2.v[0] = std::conj(cs) * ref.v[0]; r1.v[0] = cs * ref.v[0]; r2.acc[0] = r1.acc[0] = std::abs(cs) * ref.acc[0]; r2.k[0] = r1.k[0] = ref.k[0] + 2;
+    // compared with the *measured* (x, y) so that the two linearity clauses are independent of the value clause
+    Ref r2(1), r1(1); r2.v[0] = std::conj(cs) * el(ip); r1.v[0] = cs * el(ip); r2.acc[0] = r1.acc[0] = std::abs(cs) * ref.acc[0]; r2.k[0] = r1.k[0] = ref.k[0] + 2;
     cmp(c, tag + ":inner_product:conjugate-linear-2nd", "inner_product(x, s y) differs from conj(s) inner_product(x, y)", std::vector<CL>(1, el(ip2)), r2, exact, eps, 2 * cf);
     cmp(c, tag + ":inner_product:linear-1st", "inner_product(s x, y) differs from s inner_product(x, y)", std::vector<CL>(1, el(ip1)), r1, exact, eps, 2 * cf);
 }
@@ -320,8 +321,10 @@ template <class V> void vecops_case(long idx, long rep, const std::string &tn) {
     vecops_body<V, backend::numa_vector<R>, backend::numa_vector<V>, S>(c, "builtin", r, n, exact);
     if (vt<V>::cplx) vecops_body<V, backend::numa_vector<R>, backend::numa_vector<V>, E>(c, "builtin_complex_coef", r, std::min<size_t>(n, 12), exact);
     if (rep % 3 == 0) vecops_body<V, std::vector<R>, std::vector<V>, S>(c, "builtin_stdvector", r, std::min<size_t>(n, 20), exact);
-    inner_body<V, backend::numa_vector<R>>(c, "builtin", r, n, exact);
-    inner_body<V, std::vector<R>>(c, "builtin_stdvector", r, n, exact);
+    // Eigen blocks with complex scalars get their own key prefix (one root cause, see props/c07.py)
+    const bool ecb = tn.find("Eigen::Matrix<complex") == 0;
+    inner_body<V, backend::numa_vector<R>>(c, ecb ? "builtin_eigen_complex_block" : "builtin", r, n, exact);
+    if (!ecb) inner_body<V, std::vector<R>>(c, "builtin_stdvector", r, n, exact);
     if (n) c.nontrivial();
     vf::sample("vecops", J().s("type", tn).n("n", n).bl("exact", exact).n("threads", omp_get_max_threads()));
 }
@@ -514,7 +517,7 @@ int main(int argc, char **argv) {
     {"static_matrix<double,2,2>", F<static_matrix<double,2,2>>}, {"static_matrix<double,3,3>", F<static_matrix<double,3,3>>}, {"static_matrix<double,4,4>", F<static_matrix<double,4,4>>}, \
     {"static_matrix<float,2,2>", F<static_matrix<float,2,2>>}, {"static_matrix<complex<double>,2,2>", F<static_matrix<Z,2,2>>}, \
     {"Eigen::Matrix<double,2,2>", F<EM<double,2>>}, {"Eigen::Matrix<double,3,3>", F<EM<double,3>>}
-    std::vector<Ent> t_spmv = { VT_LIST(spmv_case) };
+    std::vector<Ent> t_spmv = { VT_LIST(spmv_case), {"Eigen::Matrix<complex<double>,2,2>", spmv_case<EM<Z,2>>} };
     std::vector<Ent> t_vec = { VT_LIST(vecops_case), {"Eigen::Matrix<complex<double>,2,2>", vecops_case<EM<Z,2>>} };
     std::vector<Ent> t_mixed = { {"static_matrix<double,2,2>", mixed_case<static_matrix<double,2,2>>}, {"static_matrix<double,3,3>", mixed_case<static_matrix<double,3,3>>}, {"static_matrix<double,4,4>", mixed_case<static_matrix<double,4,4>>},
                                  {"static_matrix<float,2,2>", mixed_case<static_matrix<float,2,2>>}, {"Eigen::Matrix<double,2,2>", mixed_case<EM<double,2>>}, {"Eigen::Matrix<double,3,3>", mixed_case<EM<double,3>>} };
